@@ -16,7 +16,7 @@ def ylyCtxOf (r : Rule) (proto : Inst) (nti : Nat) : YlyCtx :=
     let ds := if ds.isEmpty ∧ ymdp ∧ proto.d ≠ 0 then [(proto.d : Int)] else ds
     let wdMask := wdMaskOf r.dow
     let pdow : List Int :=
-      if wdMask = 0 ∧ !r.wk.isEmpty ∧ ms.isEmpty ∧ ds.isEmpty ∧ r.doy.isEmpty ∧ proto.m ≠ 0 ∧ proto.m ≤ 12 then
+      if wdMask = 0 ∧ !r.wk.isEmpty ∧ ds.isEmpty ∧ r.doy.isEmpty ∧ proto.m ≠ 0 ∧ proto.m ≤ 12 then
         [(ymdGetWday proto.y proto.m proto.d : Int)]
       else []
     { k := k, r := r, ms := ms, ds := ds, wdMask := wdMask, pdow := pdow }
@@ -192,13 +192,22 @@ def ylyCand0 (c : YlyCtx) (y : Nat) : List Nat :=
       fillYlyYdAll cand y c.wdMask
     else cand
 
-theorem ylyCand_eq (c : YlyCtx) (y : Nat) : ylyCand c y =
-    (let cand := fillYlyYd (ylyCand0 c y) y c.r.doy c.wdMask
+/-- the candidates before `lim_cand`: the parts expanded on their own account -/
+def ylyCand1 (c : YlyCtx) (y : Nat) : List Nat :=
+    (let cand := fillYlyYd (ylyCand0 c y) y c.r.doy c.r.dow c.wdMask (c.ms.length > 0)
      if !c.r.easter.isEmpty then fillYlyEastr cand y c.r.easter c.r.mon c.r.dom c.wdMask
      else if c.ms.length = 0 ∧ c.ds.length = 0 then cand
-     else if c.ms.length = 0 then fillYlyYmdAllM cand y c.ds c.wdMask
+     else if c.ms.length = 0 then fillYlyYmdAllM cand y c.ds c.r.dow c.wdMask
      else if c.ds.length = 0 then fillYlyYmdAllD cand y c.ms c.wdMask
-     else fillYlyYmd cand y c.ms c.ds c.wdMask) := rfl
+     else fillYlyYmd cand y c.ms c.ds c.r.dow c.wdMask)
+
+theorem ylyCand_eq (c : YlyCtx) (y : Nat) : ylyCand c y =
+    (if c.r.easter.isEmpty ∧ (!c.r.wk.isEmpty ∨ !c.r.doy.isEmpty) then
+       limCand (ylyCand1 c y) y c.r.mon c.r.dom c.r.wk c.r.doy c.pdow
+     else ylyCand1 c y) := rfl
+
+theorem AllVC.filter {y : Nat} {l : List Nat} (p : Nat → Bool) (h : AllVC y l) : AllVC y (l.filter p) :=
+  ⟨fun c hc => h.1 c (List.mem_filter.mp hc).1, List.Pairwise.sublist List.filter_sublist h.2⟩
 
 theorem ylyCand0_ok (c : YlyCtx) (y : Nat) (hms : ∀ m ∈ c.ms, 1 ≤ m ∧ m ≤ 12)
     (hdow : ∀ t ∈ c.r.dow, -431 ≤ t ∧ t ≤ 431 ∧ t % 8 ≠ 0) : AllVC y (ylyCand0 c y) := by
@@ -223,21 +232,30 @@ theorem ylyCand0_ok (c : YlyCtx) (y : Nat) (hms : ∀ m ∈ c.ms, 1 ≤ m ∧ m 
   · exact AllVC.nil y
 
 /-- every candidate of a year is a real date of that year -/
-theorem ylyCand_ok (c : YlyCtx) (y : Nat) (hms : ∀ m ∈ c.ms, 1 ≤ m ∧ m ≤ 12) (hds : ∀ d ∈ c.ds, -31 ≤ d ∧ d ≤ 31)
+theorem ylyCand1_ok (c : YlyCtx) (y : Nat) (hms : ∀ m ∈ c.ms, 1 ≤ m ∧ m ≤ 12) (hds : ∀ d ∈ c.ds, -31 ≤ d ∧ d ≤ 31)
     (hdow : ∀ t ∈ c.r.dow, -431 ≤ t ∧ t ≤ 431 ∧ t % 8 ≠ 0) (hdoy : ∀ d ∈ c.r.doy, -366 ≤ d) :
-    AllVC y (ylyCand c y) := by
-  rw [ylyCand_eq]
-  have h1 := fillYlyYd_ok _ y c.r.doy c.wdMask (ylyCand0_ok c y hms hdow) hdoy
+    AllVC y (ylyCand1 c y) := by
+  unfold ylyCand1
+  have h1 := fillYlyYd_ok _ y c.r.doy c.r.dow c.wdMask (c.ms.length > 0) (ylyCand0_ok c y hms hdow) hdoy
   dsimp only
   split
   · exact fillYlyEastr_ok _ _ _ _ _ _ h1
   split
   · exact h1
   split
-  · exact fillYlyYmdAllM_ok _ _ _ _ h1 hds
+  · exact fillYlyYmdAllM_ok _ _ _ _ _ h1 hds
   split
   · exact fillYlyYmdAllD_ok _ _ _ _ h1 hms
-  · exact fillYlyYmd_ok _ _ _ _ _ h1 hms hds
+  · exact fillYlyYmd_ok _ _ _ _ _ _ h1 hms hds
+
+theorem ylyCand_ok (c : YlyCtx) (y : Nat) (hms : ∀ m ∈ c.ms, 1 ≤ m ∧ m ≤ 12) (hds : ∀ d ∈ c.ds, -31 ≤ d ∧ d ≤ 31)
+    (hdow : ∀ t ∈ c.r.dow, -431 ≤ t ∧ t ≤ 431 ∧ t % 8 ≠ 0) (hdoy : ∀ d ∈ c.r.doy, -366 ≤ d) :
+    AllVC y (ylyCand c y) := by
+  rw [ylyCand_eq]
+  have h1 := ylyCand1_ok c y hms hds hdow hdoy
+  split
+  · exact AllVC.filter _ h1
+  · exact h1
 
 theorem mem_take {α : Type} (l : List α) (n : Nat) (x : α) (h : x ∈ l.take n) : x ∈ l :=
   (List.take_sublist n l).subset h
